@@ -9,7 +9,7 @@ pub enum NEv {
     Mmap { hint: u64, len: u64, prot: i32, flags: i32, ret: u64 },
     Munmap { addr: u64, len: u64, ret: i32 },
     Mprotect { addr: u64, len: u64, prot: i32, ret: i32 },
-    /// `bytes` = copy of the flushed range taken at call time (up to 64 bytes)
+    /// `bytes` = copy of the flushed range taken at call time (up to 64 KiB)
     Flush { start: u64, end: u64, bytes: Vec<u8> },
 }
 
@@ -199,7 +199,7 @@ pub unsafe extern "C" fn __clear_cache(start: *mut u8, end: *mut u8) {
             v.3 += 1;
             c.set(v)
         });
-        let n = (end as usize).saturating_sub(start as usize).min(64);
+        let n = (end as usize).saturating_sub(start as usize).min(1 << 16);
         let bytes = if n > 0 && crate::snap::readable(start as u64, n) { std::slice::from_raw_parts(start, n).to_vec() } else { Vec::new() };
         record(NEv::Flush { start: start as u64, end: end as u64, bytes });
         observe("flush");
